@@ -60,6 +60,9 @@ PINS["max/min/var/std JVPs also accept a 0-d integer array"] = ("C02", ["regress
 PINS["array(x, dtype=complex) VJP returns a real cotangent"] = ("C01", ["regress/C01/array-dtype-complex-real-input.json"])
 PINS["sum(x, dtype=complex) VJP returns a real cotangent"] = ("C01", ["regress/C01/sum-dtype-complex-real-input.json"])
 PINS["cholesky VJP handles complex Hermitian"] = ("C09", ["regress/C09/cholesky-complex-hermitian.json"])
+PINS["trace levels are unique and increasing"] = ("C20", ["regress/C20/nested-differentiation-in-worker-thread.json"])
+PINS["conversions to an integer or boolean type"] = ("C14", ["regress/C14/cast-to-int-passes-gradient.json"])
+PINS["arccosh rules follow the principal branch"] = ("C09", ["regress/C09/arccosh-left-half-plane.json"])
 PINS["clip VJP reduces its cotangent"] = ("C01", ["regress/C01/clip-array-bounds-broadcast.json"])
 PINS["max/min/var/std JVPs accept an axis"] = ("C02", ["regress/C02/chooser-jvp-numpy-int-axis.json"])
 PINS["FFT VJPs recognise a repeated axis"] = ("C01", ["regress/C01/fftn-repeated-axes-mixed-sign.json"])
